@@ -9,6 +9,7 @@ MISSED=0
 for s in $LIST; do
   d=seeded/$s
   [ -f $d/patch.diff ] || continue
+  if python3 -c "import json,sys;sys.exit(0 if json.load(open('$d/meta.json')).get('undetected') else 1)"; then echo "$s  ACKNOWLEDGED-MISS (meta.undetected; see DESIGN §7 round 9)"; continue; fi
   CHECKS=$(python3 -c "import json;print(' '.join(json.load(open('$d/meta.json'))['detected_by_quick_checks']))")
   TIER=$(python3 -c "import json;print(json.load(open('$d/meta.json')).get('detected_at_tier','quick'))")
   if ! git -C /repo apply /verif/$d/patch.diff 2>/dev/null; then echo "$s  PATCH-DOES-NOT-APPLY"; MISSED=$((MISSED+1)); continue; fi
